@@ -8,8 +8,9 @@ C07 — the opening handshake admits exactly the valid peers and never crashes. 
 
 All statements are about the models `Handshake.server` / `Handshake.client` / `Handshake.clientRequest`
 (Abverif/Model/Handshake.lean) and quantify over ALL byte strings, configurations, environments and chunkings.
-Where the code (and therefore the model) deviates from the Spec, the theorem is `_partial`, its hypothesis names the
-excluded inputs, and an `example` next to it shows the deviation on a concrete input (each is a known finding).
+The two `…_iff_valid` theorems carried hypotheses (`StrictVersion`, `StrictStatus`, `factoryProtocols = protocols`) while
+the code read the version / status code with `int()` and compared the subprotocol with `factory.protocols`; those defects
+are repaired in the code, the model mirrors the repaired code, and the theorems are stated without hypotheses.
 -/
 namespace Abverif.Handshake
 open Abverif Abverif.Http Abverif.Url
@@ -30,10 +31,6 @@ def offered (hs : List Hdr) : List Bytes :=
 def Accepts (env : SrvEnv) (hs : List Hdr) : Prop :=
   ∃ proto uh, env.onConnect = .accept proto uh ∧ ∀ p, proto = some p → p ∈ offered hs
 
-/-- whenever `int()` reads a supported version from the header, the header is written the RFC way -/
-def StrictVersion (cfg : SrvCfg) (hs : List Hdr) : Prop :=
-  ∀ n, pyVersion cfg hs = some n → rfcVersion (value hs b!"sec-websocket-version") = some n
-
 def SrvOut.isOpened : SrvOut → Bool
   | .opened .. => true
   | _ => false
@@ -50,7 +47,7 @@ def CliOut.isEscape : CliOut → Bool
   | .escapes _ => true
   | _ => false
 
-/-! ### int() on RFC version numerals -/
+/-! ### int() on RFC version numerals (the code converts the header with `int()` after matching it against the grammar) -/
 
 theorem rfcVersion_pyInt {s : Bytes} {n : Nat} (h : rfcVersion s = some n) : pyInt s = some (n : Int) := by
   unfold rfcVersion at h
@@ -241,21 +238,6 @@ theorem server_opened_iff (cfg : SrvCfg) (env : SrvEnv) (data : Bytes) :
             cases hacc
             exact ⟨hproto, hall⟩
 
-theorem pyVersion_mem {cfg : SrvCfg} {hs : List Hdr} {n : Nat} (h : pyVersion cfg hs = some n) : n ∈ cfg.versions := by
-  unfold pyVersion at h
-  split at h
-  · split at h
-    · next hv => simp at h; rw [← h]; exact hv.2
-    · simp at h
-  · simp at h
-
-theorem pyVersion_of_rfc {cfg : SrvCfg} {hs : List Hdr} {n : Nat}
-    (h : rfcVersion (value hs b!"sec-websocket-version") = some n) (hm : n ∈ cfg.versions) :
-    pyVersion cfg hs = some n := by
-  unfold pyVersion
-  rw [rfcVersion_pyInt h]
-  simp [hm]
-
 theorem originOk_iff {cfg : SrvCfg} {env : SrvEnv} {hs : List Hdr} {ver : Nat}
     (hv : rfcVersion (value hs b!"sec-websocket-version") = some ver) :
     originOk cfg env hs = true ↔
@@ -265,12 +247,10 @@ theorem originOk_iff {cfg : SrvCfg} {env : SrvEnv} {hs : List Hdr} {ver : Nat}
   rw [hv]
   simp
 
-/-- **server_accepts_iff_valid** (partial: for header blocks whose `Sec-WebSocket-Version`, when `int()` reads a supported
-version from it, is an RFC 6455 version numeral; the excluded inputs are `+13`, `1_3`, `013`, … — see the `example`s).
+/-- **server_accepts_iff_valid** (full since the repair of the `Sec-WebSocket-Version` syntax: no hypothesis).
 For all byte strings, configurations and environments: the server model completes the handshake exactly when the header
 block is complete, satisfies `ValidRequest`, and the user's `onConnect` accepts. -/
-theorem server_accepts_iff_valid_partial (cfg : SrvCfg) (env : SrvEnv) (data : Bytes)
-    (hstrict : ∀ line hs, ParsedHead data line hs → StrictVersion cfg hs) :
+theorem server_accepts_iff_valid (cfg : SrvCfg) (env : SrvEnv) (data : Bytes) :
     (server cfg env data).isOpened = true ↔
       ∃ line hs, ParsedHead data line hs ∧ ValidRequest cfg env line hs ∧ Accepts env hs := by
   rw [server_opened_iff]
@@ -278,10 +258,9 @@ theorem server_accepts_iff_valid_partial (cfg : SrvCfg) (env : SrvEnv) (data : B
   · rintro ⟨line, hs, v, proto, uh, hp, hv, hoc, hproto, hall⟩
     obtain ⟨eoh, hfind, hparse⟩ := hp
     have wf := parse_wf hparse
-    have strict := hstrict line hs ⟨eoh, hfind, hparse⟩
     obtain ⟨uri, h1, h2, h3, h4, h5, ver, h6, ps, h7, h8, key, h9, exts, h10, h11, rfl⟩ := (validate_ok _ _ _ _ _).1 hv
     have hver := (stageVersion_ok wf ver).1 h6
-    have hrfc := strict ver hver.2
+    have hrfc := hver.2.1
     have hps := (stageProtocols_ok hs ps).1 h7
     have hext := (stageExtensions_ok exts).1 h10
     refine ⟨line, hs, ⟨eoh, hfind, hparse⟩, ?_, ?_⟩
@@ -290,7 +269,7 @@ theorem server_accepts_iff_valid_partial (cfg : SrvCfg) (env : SrvEnv) (data : B
           host := (stageHost_ok wf).1 h3
           upgrade := (stageUpgrade_ok wf).1 h4
           connection := (stageConnection_ok wf).1 h5
-          version := ⟨hver.1, ver, pyVersion_mem hver.2, hrfc⟩
+          version := ⟨hver.1, ver, hver.2.2, hrfc⟩
           protocols := hps.1
           origin := (originOk_iff hrfc).2 ((stageOrigin_ok wf ver).1 h8)
           key := ((stageKey_ok wf key).1 h9).1
@@ -306,12 +285,11 @@ theorem server_accepts_iff_valid_partial (cfg : SrvCfg) (env : SrvEnv) (data : B
     have wf := parse_wf hparse
     obtain ⟨uri, h1, h2⟩ := (stageLineUri_ok env line).2 hvalid.line
     obtain ⟨hvc, ver, hvm, hrfc⟩ := hvalid.version
-    have hpy := pyVersion_of_rfc hrfc hvm
     refine ⟨line, hs, ⟨ver, offered hs, strip (value hs b!"sec-websocket-key"),
       parseExtensions (value hs b!"sec-websocket-extensions")⟩, proto, uh, ⟨eoh, hfind, hparse⟩, ?_, hoc, hproto, ?_⟩
     · apply (validate_ok _ _ _ _ _).2
       refine ⟨uri, h1, h2, (stageHost_ok wf).2 hvalid.host, (stageUpgrade_ok wf).2 hvalid.upgrade,
-        (stageConnection_ok wf).2 hvalid.connection, ver, (stageVersion_ok wf ver).2 ⟨hvc, hpy⟩, offered hs,
+        (stageConnection_ok wf).2 hvalid.connection, ver, (stageVersion_ok wf ver).2 ⟨hvc, hrfc, hvm⟩, offered hs,
         (stageProtocols_ok hs _).2 ⟨hvalid.protocols, rfl⟩,
         (stageOrigin_ok wf ver).2 ((originOk_iff hrfc).1 hvalid.origin), _,
         (stageKey_ok wf _).2 ⟨hvalid.key, rfl⟩, _, (stageExtensions_ok _).2 ⟨hvalid.extensions.1, rfl⟩,
@@ -319,6 +297,28 @@ theorem server_accepts_iff_valid_partial (cfg : SrvCfg) (env : SrvEnv) (data : B
     · have := hvalid.extensions.2
       unfold offersOk at this
       exact this
+
+/-- the same on raw octets: the server model opens exactly when the Spec verdict `specRequest` is positive and
+`onConnect` accepts with no subprotocol or an announced one -/
+theorem server_accepts_iff_spec (cfg : SrvCfg) (env : SrvEnv) (data : Bytes) :
+    (server cfg env data).isOpened = true ↔
+      specRequest cfg env data = true ∧ ∃ line hs, ParsedHead data line hs ∧ Accepts env hs := by
+  rw [server_accepts_iff_valid]
+  unfold specRequest ParsedHead
+  cases hf : find crlfcrlf data with
+  | none => simp
+  | some eoh =>
+    simp only [Option.some.injEq, exists_eq_left']
+    cases hp : parseHttpHeader (data.take (eoh + 4)) with
+    | none => simp
+    | some lh =>
+      obtain ⟨line, hs⟩ := lh
+      simp only [Option.some.injEq, Prod.mk.injEq, decide_eq_true_eq]
+      constructor
+      · rintro ⟨l, h, ⟨rfl, rfl⟩, hv, ha⟩
+        exact ⟨hv, _, _, ⟨rfl, rfl⟩, ha⟩
+      · rintro ⟨hv, l, h, ⟨rfl, rfl⟩, ha⟩
+        exact ⟨_, _, ⟨rfl, rfl⟩, hv, ha⟩
 
 /-! ### client: opens exactly for valid responses -/
 
@@ -385,25 +385,22 @@ theorem client_opened_iff (cfg : CliCfg) (key data : Bytes) :
     unfold client
     simp [hf, hp, hv, CliOut.isOpened]
 
-/-- **client_opens_iff_valid** (partial: for header blocks whose status code, when `int()` reads 101 from it, is the
-literal `101`, and for clients whose request announced `factory.protocols` [no `onConnecting` override] — the excluded
-inputs are shown as `example`s below; non-UTF-8 header blocks are no longer excluded, fix 96829a53).  The client model
-completes the handshake exactly when the header block is complete and satisfies `ValidResponse` for the key it sent. -/
-theorem client_opens_iff_valid_partial (cfg : CliCfg) (key data : Bytes)
-    (hproto : cfg.factoryProtocols = cfg.protocols)
-    (hstrict : ∀ line hs, ParsedHead data line hs → StrictStatus line) :
+/-- **client_opens_iff_valid** (full since the repairs of the status-code syntax and of the subprotocol comparison: no
+hypothesis; non-UTF-8 header blocks are covered since fix 96829a53).  For all configurations, keys and byte strings the
+client model completes the handshake exactly when the header block is complete and satisfies `ValidResponse` for the key
+it sent and the subprotocols its request announced. -/
+theorem client_opens_iff_valid (cfg : CliCfg) (key data : Bytes) :
     (client cfg key data).isOpened = true ↔ ∃ line hs, ParsedHead data line hs ∧ ValidResponse cfg key line hs := by
   rw [client_opened_iff]
   constructor
   · rintro ⟨eoh, line, hs, r, hfind, hparse, hv⟩
     have wf := parse_wf hparse
-    have strict := hstrict line hs ⟨eoh, hfind, hparse⟩
     obtain ⟨h1, h2, h3, h4, h5, h6⟩ := (cvalidate_ok _ _ _ _ _).1 hv
     have he := (cstageExtensions_ok cfg hs r.2).1 h5
     have hp := (cstageProtocol_ok cfg hs r.1).1 h6
     refine ⟨line, hs, ⟨eoh, hfind, hparse⟩, ?_⟩
     exact
-      { status := (cstageStatus_ok strict).1 h1
+      { status := cstageStatus_ok.1 h1
         upgrade := (cstageUpgrade_ok wf).1 h2
         connection := (cstageConnection_ok wf).1 h3
         accept := (cstageAccept_ok wf key).1 h4
@@ -411,10 +408,9 @@ theorem client_opens_iff_valid_partial (cfg : CliCfg) (key data : Bytes)
         protocol := ⟨hp.1, by
           rcases hp.2 with ⟨h0, _⟩ | ⟨_, hm, _⟩
           · exact .inl h0
-          · exact .inr (hproto ▸ hm)⟩ }
+          · exact .inr hm⟩ }
   · rintro ⟨line, hs, ⟨eoh, hfind, hparse⟩, hvalid⟩
     have wf := parse_wf hparse
-    have strict := hstrict line hs ⟨eoh, hfind, hparse⟩
     have hext := hvalid.extensions.2
     rw [responseExtensionsOk_eq] at hext
     cases hl : cextLoop cfg (parseExtensions (value hs b!"sec-websocket-extensions")) false with
@@ -423,7 +419,7 @@ theorem client_opens_iff_valid_partial (cfg : CliCfg) (key data : Bytes)
       let sp := strip (value hs b!"sec-websocket-protocol")
       refine ⟨eoh, line, hs, (if sp = [] then none else some sp, l), hfind, hparse, ?_⟩
       apply (cvalidate_ok _ _ _ _ _).2
-      refine ⟨(cstageStatus_ok strict).2 hvalid.status, (cstageUpgrade_ok wf).2 hvalid.upgrade,
+      refine ⟨cstageStatus_ok.2 hvalid.status, (cstageUpgrade_ok wf).2 hvalid.upgrade,
         (cstageConnection_ok wf).2 hvalid.connection, (cstageAccept_ok wf key).2 hvalid.accept,
         (cstageExtensions_ok cfg hs l).2 ⟨hvalid.extensions.1, hl⟩, ?_⟩
       apply (cstageProtocol_ok cfg hs _).2
@@ -434,7 +430,27 @@ theorem client_opens_iff_valid_partial (cfg : CliCfg) (key data : Bytes)
         refine ⟨h0, ?_, by simp [h0, sp]⟩
         rcases hvalid.protocol.2 with h | h
         · exact absurd h h0
-        · exact hproto ▸ h
+        · exact h
+
+/-- the same on raw octets: the client model opens exactly when the Spec verdict `specResponse` is positive -/
+theorem client_opens_iff_spec (cfg : CliCfg) (key data : Bytes) :
+    (client cfg key data).isOpened = true ↔ specResponse cfg key data = true := by
+  rw [client_opens_iff_valid]
+  unfold specResponse ParsedHead
+  cases hf : find crlfcrlf data with
+  | none => simp
+  | some eoh =>
+    simp only [Option.some.injEq, exists_eq_left']
+    cases hp : parseHttpHeader (data.take (eoh + 4)) with
+    | none => simp
+    | some lh =>
+      obtain ⟨line, hs⟩ := lh
+      simp only [Option.some.injEq, Prod.mk.injEq, decide_eq_true_eq]
+      constructor
+      · rintro ⟨l, h, ⟨rfl, rfl⟩, hv⟩
+        exact hv
+      · intro hv
+        exact ⟨_, _, ⟨rfl, rfl⟩, hv⟩
 
 /-! ### segmentation independence -/
 
@@ -905,28 +921,38 @@ example : (server { allowedOrigins := [b!"http://good.com:80"] } {}
     b!"GET / HTTP/1.1\r\nHost: a\r\nUpgrade: websocket\r\nConnection: Upgrade\r\nOrigin: http://good.com.evil.com\r\nSec-WebSocket-Key: dGhlIHNhbXBsZSBub25jZQ==\r\nSec-WebSocket-Version: 13\r\n\r\n")
     = .fail 400 [] := by decide +kernel
 
-/-! ### deviations of the code from the Spec that the `_partial` hypotheses exclude (each is a known finding) -/
+/-! ### the inputs of the repaired defects (each was a known finding with a negation witness here; model and Spec now agree) -/
 
-/-- `Sec-WebSocket-Version: +13` — the model (like the code) opens, the Spec says invalid -/
-example : (server {} {} b!"GET / HTTP/1.1\r\nHost: a\r\nUpgrade: websocket\r\nConnection: Upgrade\r\nSec-WebSocket-Key: dGhlIHNhbXBsZSBub25jZQ==\r\nSec-WebSocket-Version: +13\r\n\r\n").isOpened = true
+/-- `Sec-WebSocket-Version: +13` (what `int()` used to read as 13) — refused, as the Spec says -/
+example : server {} {} b!"GET / HTTP/1.1\r\nHost: a\r\nUpgrade: websocket\r\nConnection: Upgrade\r\nSec-WebSocket-Key: dGhlIHNhbXBsZSBub25jZQ==\r\nSec-WebSocket-Version: +13\r\n\r\n" = .fail 400 []
     ∧ specRequest {} {} b!"GET / HTTP/1.1\r\nHost: a\r\nUpgrade: websocket\r\nConnection: Upgrade\r\nSec-WebSocket-Key: dGhlIHNhbXBsZSBub25jZQ==\r\nSec-WebSocket-Version: +13\r\n\r\n" = false := by
   decide
 
-/-- … and a plain `13` satisfies both (the hypothesis `StrictVersion` holds on a non-trivial input) -/
+/-- … and a plain `13` satisfies both -/
 example : (server {} {} b!"GET / HTTP/1.1\r\nHost: a\r\nUpgrade: websocket\r\nConnection: Upgrade\r\nSec-WebSocket-Key: dGhlIHNhbXBsZSBub25jZQ==\r\nSec-WebSocket-Version: 13\r\n\r\n").isOpened = true
     ∧ specRequest {} {} b!"GET / HTTP/1.1\r\nHost: a\r\nUpgrade: websocket\r\nConnection: Upgrade\r\nSec-WebSocket-Key: dGhlIHNhbXBsZSBub25jZQ==\r\nSec-WebSocket-Version: 13\r\n\r\n" = true := by
   decide
 
-/-- status `+101` — the client model opens, the Spec says invalid -/
-example : (client {} b!"dGhlIHNhbXBsZSBub25jZQ==" b!"HTTP/1.1 +101 X\r\nUpgrade: websocket\r\nConnection: Upgrade\r\nSec-WebSocket-Accept: s3pPLMBiTxaQ9kYGzzhZRbK+xOo=\r\n\r\n").isOpened = true
+/-- the other spellings `int()` took for 13 / 8, and numerals outside 0–255: none is a version numeral -/
+example : [b!"+13", b!"1_3", b!"013", b!"+8", b!"08", b!" 13", b!"13 ", b!"256", b!"299", b!"1000", b!"-13", b!""].map versionNumeral
+    = List.replicate 12 none ∧
+    [b!"0", b!"8", b!"13", b!"99", b!"100", b!"199", b!"249", b!"255"].map versionNumeral
+    = [some 0, some 8, some 13, some 99, some 100, some 199, some 249, some 255] := by decide
+
+/-- status `+101` (what `int()` used to read as 101) — the client fails the handshake, as the Spec says -/
+example : client {} b!"dGhlIHNhbXBsZSBub25jZQ==" b!"HTTP/1.1 +101 X\r\nUpgrade: websocket\r\nConnection: Upgrade\r\nSec-WebSocket-Accept: s3pPLMBiTxaQ9kYGzzhZRbK+xOo=\r\n\r\n" = .fail
     ∧ specResponse {} b!"dGhlIHNhbXBsZSBub25jZQ==" b!"HTTP/1.1 +101 X\r\nUpgrade: websocket\r\nConnection: Upgrade\r\nSec-WebSocket-Accept: s3pPLMBiTxaQ9kYGzzhZRbK+xOo=\r\n\r\n" = false := by
   decide +kernel
 
-/-- a client that announced `b` (via `onConnecting`) while `factory.protocols = [a]` accepts `a`, which it never requested -/
-example : (client { protocols := [b!"b"], factoryProtocols := [b!"a"] } b!"dGhlIHNhbXBsZSBub25jZQ=="
-      b!"HTTP/1.1 101 X\r\nUpgrade: websocket\r\nConnection: Upgrade\r\nSec-WebSocket-Accept: s3pPLMBiTxaQ9kYGzzhZRbK+xOo=\r\nSec-WebSocket-Protocol: a\r\n\r\n").isOpened = true
-    ∧ specResponse { protocols := [b!"b"], factoryProtocols := [b!"a"] } b!"dGhlIHNhbXBsZSBub25jZQ=="
-      b!"HTTP/1.1 101 X\r\nUpgrade: websocket\r\nConnection: Upgrade\r\nSec-WebSocket-Accept: s3pPLMBiTxaQ9kYGzzhZRbK+xOo=\r\nSec-WebSocket-Protocol: a\r\n\r\n" = false := by
+example : [b!"+101", b!"1_01", b!"0101", b!"00101", b!" 101", b!"101 ", b!"10", b!""].map statusCode = List.replicate 8 none
+    ∧ statusCode b!"101" = some 101 ∧ statusCode b!"200" = some 200 ∧ statusCode b!"007" = some 7 := by decide
+
+/-- a client that announced `b` (its `onConnecting` returned a request of its own; `factory.protocols` plays no part any
+more) refuses `a`, which it never requested, and accepts `b` -/
+example : client { protocols := [b!"b"] } b!"dGhlIHNhbXBsZSBub25jZQ=="
+      b!"HTTP/1.1 101 X\r\nUpgrade: websocket\r\nConnection: Upgrade\r\nSec-WebSocket-Accept: s3pPLMBiTxaQ9kYGzzhZRbK+xOo=\r\nSec-WebSocket-Protocol: a\r\n\r\n" = .fail
+    ∧ client { protocols := [b!"b"] } b!"dGhlIHNhbXBsZSBub25jZQ=="
+      b!"HTTP/1.1 101 X\r\nUpgrade: websocket\r\nConnection: Upgrade\r\nSec-WebSocket-Accept: s3pPLMBiTxaQ9kYGzzhZRbK+xOo=\r\nSec-WebSocket-Protocol: b\r\n\r\n" = .opened (some b!"b") [] [] := by
   decide +kernel
 
 /-- with the Flash policy file served, the verdict depends on segmentation (why `segmentation_independent_server` asks
@@ -937,23 +963,74 @@ example : serverFeed { flashPolicy := true } {} [flashRequest, b!"\r\n\r\n"] = .
 /-! ### the client request -/
 
 /-- **request_targets_url**: for every configuration and key the request line is `GET <resource> HTTP/1.1`, followed
-(after the optional User-Agent) by `Host: <host>:<port>` — the `(host, port, resource)` the factory holds. -/
+(after the optional User-Agent) by `Host: <host>:<port>` — the `(host, port, resource)` the factory holds, the host in
+brackets when it is an IPv6 address (`hostHeader`). -/
 theorem request_targets_url (cfg : CliCfg) (key : Bytes) :
     ∃ ua rest, (ua = [] ∨ ua = b!"User-Agent: " ++ cfg.useragent ++ crlf) ∧
       clientRequest cfg key = utf8Encode (b!"GET " ++ cfg.resource ++ b!" HTTP/1.1" ++ crlf ++ ua ++
-        b!"Host: " ++ cfg.host ++ b!":" ++ natDigits cfg.port ++ crlf ++ rest) := by
+        b!"Host: " ++ hostHeader cfg.host ++ b!":" ++ natDigits cfg.port ++ crlf ++ rest) := by
   unfold clientRequest
+  generalize hostHeader cfg.host = hh
   by_cases hu : cfg.useragent.isEmpty = true
   · exact ⟨[], _, .inl rfl, by rw [if_pos hu]; simp only [List.append_assoc, List.append_nil, List.nil_append]; rfl⟩
   · exact ⟨_, _, .inr rfl, by rw [if_neg hu]; simp only [List.append_assoc]; rfl⟩
 
+/-- `hostHeader` leaves a registered name or IPv4 address alone and brackets an IPv6 address exactly once -/
+theorem hostHeader_plain {h : Bytes} (hc : contains 58 h = false) : hostHeader h = h := by
+  simp [hostHeader, hc]
+
+theorem hostHeader_v6 {h : Bytes} (hc : contains 58 h = true) (hb : h.head? ≠ some 91) :
+    hostHeader h = [91] ++ h ++ [93] := by
+  unfold hostHeader
+  have : (h.head? != some 91) = true := by simpa using hb
+  simp [hc, this]
+
+theorem hostHeader_bracketed (h : Bytes) : hostHeader (91 :: h) = 91 :: h := by
+  simp [hostHeader]
+
 /-- what `parse_url` hands to the factory (model `parseUrl`) -/
 example : parseUrl (fun _ => true) b!"wss://example.com:8443/p/q?x=1" = some ⟨true, b!"example.com", 8443, b!"/p/q?x=1"⟩ := by
   decide
-/-- **request_targets_url is partial w.r.t. the URL**: path parameters of the last segment are dropped (known finding) -/
-example : parseUrl (fun _ => true) b!"ws://h/a;x=1?q=2" = some ⟨false, b!"h", 80, b!"/a?q=2"⟩ := by decide
-/-- … and an IPv6 host loses its brackets, so the request says `Host: ::1:9000` (known finding) -/
+/-- path parameters of the last segment stay in the resource (they were dropped: repaired finding) -/
+example : parseUrl (fun _ => true) b!"ws://h/a;x=1?q=2" = some ⟨false, b!"h", 80, b!"/a;x=1?q=2"⟩
+    ∧ parseUrl (fun _ => true) b!"ws://h/;" = some ⟨false, b!"h", 80, b!"/;"⟩ := by decide
+/-- an IPv6 host is still handed to the factory without its brackets … -/
 example : parseUrl (fun _ => true) b!"ws://[::1]:9000/" = some ⟨false, b!"::1", 9000, b!"/"⟩ := by decide
+/-- … and the request puts them back: `Host: [::1]:9000` (it said `Host: ::1:9000`: repaired finding) -/
+example : hostHeader b!"::1" = b!"[::1]" ∧ hostHeader b!"[::1]" = b!"[::1]" ∧ hostHeader b!"example.com" = b!"example.com"
+    ∧ hostHeader b!"127.0.0.1" = b!"127.0.0.1" := by decide
+
+theorem ite_none_some {α : Type} {c : Prop} [Decidable c] {a w : α} (h : (if c then none else some a) = some w) :
+    a = w := by
+  split at h
+  · cases h
+  · exact Option.some.inj h
+
+/-- **resource_is_path_and_query**: whenever `parseUrl` accepts a URL, the resource is the path as `urlsplit` returns it
+(`/` if empty) followed by `?query` when the query is not empty — nothing of the path is dropped -/
+theorem resource_is_path_and_query {brOk : Bytes → Bool} {url : Bytes} {w : WsUrl} (h : parseUrl brOk url = some w) :
+    ∃ u, urlsplit brOk url = some u ∧
+      w.resource = (if u.path = [] then b!"/" else u.path) ++ (if u.query ≠ [] then b!"?" ++ u.query else []) := by
+  unfold parseUrl at h
+  split at h
+  · cases h
+  · next u hu =>
+    refine ⟨u, hu, ?_⟩
+    split at h
+    · cases h
+    split at h
+    · cases h
+    split at h
+    · cases h
+    split at h
+    · cases h
+    dsimp only at h
+    split at h
+    · cases h
+    · have := ite_none_some h
+      subst this
+      simp only
+      by_cases hq : u.query ≠ [] <;> simp [hq]
 
 /-- `HeaderSafe` is satisfiable, so `parse_render_headers` applies to what the client and server render -/
 example : HeaderSafe (b!"X-Custom", b!"some value") :=
